@@ -28,6 +28,10 @@ enum Call {
     GetLine(u32),
     LineCount,
     Lines,
+    /// get_line_slice(line, col, span)
+    Slice(u32, u32, u32),
+    /// clone the shared view, ask the clone
+    CloneGetLine(u32),
 }
 
 #[derive(Debug, PartialEq)]
@@ -35,6 +39,25 @@ enum Res {
     Line(Option<String>),
     Count(usize),
     Lines(Vec<String>),
+}
+
+/// characters whose UTF-16 units intersect [col, col+span); None if the line is shorter
+fn ref_slice(line: &str, col: u32, span: u32) -> Option<String> {
+    let (lo, hi) = (col as u64, col as u64 + span as u64);
+    let mut unit = 0u64;
+    let mut out = String::new();
+    for ch in line.chars() {
+        let w = ch.len_utf16() as u64;
+        if lo < hi && unit < hi && unit + w > lo {
+            out.push(ch);
+        }
+        unit += w;
+    }
+    if unit < hi {
+        None
+    } else {
+        Some(out)
+    }
 }
 
 /// Reference: split at \r\n, \n, lone \r; trailing terminator yields a final empty line.
@@ -64,6 +87,8 @@ fn answer(lines: &[String], c: &Call) -> Res {
         Call::GetLine(i) => Res::Line(lines.get(*i as usize).cloned()),
         Call::LineCount => Res::Count(lines.len()),
         Call::Lines => Res::Lines(lines.to_vec()),
+        Call::Slice(l, c, n) => Res::Line(lines.get(*l as usize).and_then(|t| ref_slice(t, *c, *n))),
+        Call::CloneGetLine(i) => Res::Line(lines.get(*i as usize).cloned()),
     }
 }
 
@@ -72,10 +97,35 @@ fn apply(v: &SourceView, c: &Call) -> Res {
         Call::GetLine(i) => Res::Line(v.get_line(*i).map(str::to_owned)),
         Call::LineCount => Res::Count(v.line_count()),
         Call::Lines => Res::Lines(v.lines().map(str::to_owned).collect()),
+        Call::Slice(l, c, n) => Res::Line(v.get_line_slice(*l, *c, *n).map(str::to_owned)),
+        Call::CloneGetLine(i) => {
+            let c = v.clone();
+            let r = c.get_line(*i).map(str::to_owned);
+            Res::Line(r)
+        }
     }
 }
 
-fn scenario(seed: u64) -> (String, Vec<Vec<Call>>) {
+struct Scenario {
+    text: String,
+    /// calls by the main thread before the clients start (partly indexed view)
+    pre: Vec<Call>,
+    threads: Vec<Vec<Call>>,
+    /// calls by the main thread while the clients run
+    main_during: Vec<Call>,
+}
+
+fn gen_call(s: &mut u64, n: u64) -> Call {
+    match below(s, 12) {
+        0..=5 => Call::GetLine(below(s, n + 2) as u32),
+        6..=7 => Call::LineCount,
+        8 => Call::Lines,
+        9 => Call::Slice(below(s, n + 1) as u32, below(s, 3) as u32, below(s, 3) as u32),
+        _ => Call::CloneGetLine(below(s, n + 1) as u32),
+    }
+}
+
+fn scenario(seed: u64) -> Scenario {
     let mut s = seed ^ 0xC16;
     let pieces = ["", "a", "bb", "é"];
     let terms = ["\n", "\r\n", "\r"];
@@ -89,28 +139,28 @@ fn scenario(seed: u64) -> (String, Vec<Vec<Call>>) {
         }
     }
     let n = ref_lines(&text).len() as u64;
-    let nthreads = 2 + below(&mut s, 2) as usize;
+    let nthreads = 2 + below(&mut s, 3) as usize;
     let mut threads = Vec::new();
     for _ in 0..nthreads {
-        let k = 1 + below(&mut s, 2) as usize;
-        let mut calls = Vec::new();
-        for _ in 0..k {
-            calls.push(match below(&mut s, 10) {
-                0..=5 => Call::GetLine(below(&mut s, n + 2) as u32),
-                6..=7 => Call::LineCount,
-                _ => Call::Lines,
-            });
-        }
-        threads.push(calls);
+        let k = 1 + below(&mut s, 3) as usize;
+        threads.push((0..k).map(|_| gen_call(&mut s, n)).collect());
     }
-    (text, threads)
+    let pre = (0..below(&mut s, 3)).map(|_| gen_call(&mut s, n)).collect();
+    let main_during = (0..below(&mut s, 2)).map(|_| gen_call(&mut s, n)).collect();
+    Scenario { text, pre, threads, main_during }
 }
 
 fn run(seed: u64) {
-    let (text, threads) = scenario(seed);
+    let Scenario { text, pre, threads, main_during } = scenario(seed);
     let lines = ref_lines(&text);
     let view = Arc::new(SourceView::new(text.as_str().into()));
-    let barrier = Arc::new(Barrier::new(threads.len()));
+    for c in &pre {
+        let r = apply(&view, c);
+        if r != answer(&lines, c) {
+            panic!("C16-VIOLATION scenario={seed} text={text:?} pre-phase call={c:?} returned {r:?}");
+        }
+    }
+    let barrier = Arc::new(Barrier::new(threads.len() + 1));
     let mut handles = Vec::new();
     for calls in threads.clone() {
         let view = view.clone();
@@ -119,6 +169,14 @@ fn run(seed: u64) {
             barrier.wait();
             calls.iter().map(|c| apply(&view, c)).collect::<Vec<Res>>()
         }));
+    }
+    barrier.wait();
+    for c in &main_during {
+        let r = apply(&view, c);
+        let want = answer(&lines, c);
+        if r != want {
+            panic!("C16-VIOLATION scenario={seed} text={text:?} main thread call={c:?} returned {r:?}, a fresh single-threaded view returns {want:?}");
+        }
     }
     for (t, h) in handles.into_iter().enumerate() {
         match h.join() {
